@@ -437,6 +437,218 @@ def _c17_block(repo: Path):
     out.append('def dcoeffs : List (List (Int × Nat)) := [' + ', '.join(n for _, n in switch) + ']')
     return out, dict(daubechies_tables=len(switch))
 
+# ---------------------------------------------------------------------------------------------
+# C09: the out= convention — `_get_output`'s tests in source order, every wrapper's call to it
+# (array argument, dtype argument), and hitmiss's hand-written validation
+
+OUT_MODULES = ['morph', 'convolve', 'labeled', 'interpolate']
+
+
+def _src(node):
+    return ast.unparse(node).replace('"', "'")
+
+
+def _raise_class(stmt):
+    if isinstance(stmt, ast.Raise) and stmt.exc is not None:
+        f = stmt.exc.func if isinstance(stmt.exc, ast.Call) else stmt.exc
+        return getattr(f, 'id', None) or getattr(f, 'attr', None)
+    return None
+
+
+def extract_get_output(repo: Path):
+    """the sequence of (test on `out`, exception class) of internal._get_output after `if out is None`"""
+    tree = ast.parse((repo / 'mahotas' / 'internal.py').read_text())
+    fn = next((n for n in tree.body if isinstance(n, ast.FunctionDef) and n.name == '_get_output'), None)
+    if fn is None:
+        raise TranslationError('_get_output not found')
+    checks, seen_none, default_alloc, returns_out = [], False, None, False
+    for st in fn.body:
+        if isinstance(st, ast.If) and _src(st.test) == 'out is None':
+            seen_none = True
+            if len(st.body) == 1 and isinstance(st.body[0], ast.Return):
+                default_alloc = _src(st.body[0].value)
+            continue
+        if seen_none and isinstance(st, ast.If):
+            cls = _raise_class(st.body[0]) if len(st.body) == 1 else None
+            if cls is None or st.orelse:
+                raise TranslationError('unexpected statement in _get_output: ' + _src(st)[:80])
+            checks.append((_src(st.test), cls))
+        elif seen_none and isinstance(st, ast.Return):
+            returns_out = _src(st.value) == 'out'
+        elif seen_none:
+            raise TranslationError('unexpected statement in _get_output: ' + _src(st)[:80])
+    if not seen_none or default_alloc is None or not returns_out:
+        raise TranslationError('_get_output: structure not recognised')
+    return checks, default_alloc
+
+
+def extract_out_sites(repo: Path):
+    """for every public function of the out-modules with an out/output parameter: how `out` is consumed —
+    a call to `_get_output(array, out, name, dtype)` or the calls `out=` is forwarded to"""
+    sites = []
+    for m in OUT_MODULES:
+        tree = ast.parse((repo / 'mahotas' / (m + '.py')).read_text())
+        for fn in tree.body:
+            if not isinstance(fn, ast.FunctionDef) or fn.name.startswith('_'):
+                continue
+            params = [a.arg for a in fn.args.args]
+            if 'out' not in params and 'output' not in params:
+                continue
+            found = []
+            for node in ast.walk(fn):
+                if isinstance(node, ast.Call):
+                    name = getattr(node.func, 'id', None) or getattr(node.func, 'attr', None)
+                    if name == '_get_output':
+                        if len(node.args) < 3:
+                            raise TranslationError(f'{m}.{fn.name}: _get_output call not understood')
+                        dt = node.args[3] if len(node.args) > 3 else next((k.value for k in node.keywords if k.arg == 'dtype'), None)
+                        alias = any(k.arg == 'output' for k in node.keywords)
+                        found.append(f"get_output({_src(node.args[0])},{_src(node.args[1])},{_src(dt) if dt is not None else 'None'}{',output' if alias else ''})")
+                    else:
+                        for k in node.keywords:
+                            if k.arg in ('out', 'output') and _src(k.value) != 'None':
+                                found.append(f"forward:{name}({k.arg}={_src(k.value)})")
+            hand = [ _src(n.test) + '->' + str(_raise_class(n.body[0])) for n in ast.walk(fn)
+                     if isinstance(n, ast.If) and len(n.body) == 1 and _raise_class(n.body[0]) and 'out' in _src(n.test).replace('output', 'out')]
+            sites.append((m + '.' + fn.name, ','.join(p for p in params if p in ('out', 'output')), found, hand))
+    if not sites:
+        raise TranslationError('no out= call sites found')
+    return sites
+
+
+def generate_outconv(repo: Path, outdir: Path) -> dict:
+    checks, alloc = extract_get_output(repo)
+    sites = extract_out_sites(repo)
+
+    def q(x):
+        return '"' + x.replace('\\', '\\\\').replace('"', '\\"') + '"'
+    s = ['/- GENERATED by translator/tables.py (generate_outconv) from the current /repo sources. Do not edit. -/',
+         'namespace Mahotas.Generated', '',
+         '/-- the tests `internal._get_output` applies to a supplied `out`, in source order, with the exception raised -/',
+         'def getOutputChecksSrc : List (String × String) := [' + ', '.join(f'({q(a)}, {q(b)})' for a, b in checks) + ']',
+         '/-- what `_get_output` returns when `out is None` -/',
+         'def getOutputDefault : String := ' + q(alloc),
+         '',
+         '/-- every public function with an out/output parameter: (name, parameters, how out is consumed, own raise-tests on out) -/',
+         'def outSites : List (String × String × List String × List String) := [']
+    s += ['  (' + ', '.join([q(n), q(p), '[' + ', '.join(q(x) for x in f) + ']', '[' + ', '.join(q(x) for x in h) + ']']) + '),' for n, p, f, h in sites]
+    s[-1] = s[-1][:-1]
+    s += [']', '', 'end Mahotas.Generated', '']
+    changed = _write_if_changed(outdir / 'OutConv.lean', '\n'.join(s))
+    return dict(outconv_changed=changed, out_sites=len(sites), get_output_checks=len(checks))
+
+
+# ---------------------------------------------------------------------------------------------
+# C08: which numpy normalisation stands between the user's array and a native ISCARRAY guard
+
+NORM_SITES = [('labeled', '_as_labeled', 'labeled'), ('labeled', '_convert_labeled', 'labeled'),
+              ('histogram', 'fullhistogram', 'img'), ('polygon', 'convexhull', 'bwimg')]
+
+
+def extract_normalisers(repo: Path):
+    out = []
+    for mod, fname, param in NORM_SITES:
+        tree = ast.parse((repo / 'mahotas' / (mod + '.py')).read_text())
+        fn = next((n for n in tree.body if isinstance(n, ast.FunctionDef) and n.name == fname), None)
+        if fn is None:
+            raise TranslationError(f'{mod}.{fname} not found')
+        found = []
+        for node in ast.walk(fn):
+            if not isinstance(node, ast.Call):
+                continue
+            call = node
+            name = getattr(call.func, 'attr', None)
+            if name not in ('require', 'array', 'ascontiguousarray', 'asanyarray', 'asarray'):
+                continue
+            if not (call.args and isinstance(call.args[0], ast.Name) and call.args[0].id == param):
+                continue
+            kw = {k.arg: k.value for k in call.keywords}
+            if name == 'require':
+                r = kw.get('requirements', call.args[2] if len(call.args) > 2 else None)
+                if isinstance(r, ast.Constant) and isinstance(r.value, str):
+                    letters = r.value
+                elif isinstance(r, (ast.List, ast.Tuple)):
+                    letters = ''.join(e.value[0] for e in r.elts)
+                else:
+                    raise TranslationError(f'{mod}.{fname}: np.require requirements not understood')
+                found.append('require:' + ''.join(c for c in 'CAW' if c in letters.upper()))
+            elif name == 'array':
+                o = kw.get('order')
+                found.append('array:' + (o.value if isinstance(o, ast.Constant) else 'K'))
+            elif name == 'ascontiguousarray':
+                found.append('ascontiguousarray')
+            else:
+                found.append('asanyarray')
+        if not found:
+            raise TranslationError(f'{mod}.{fname}: no normalisation of `{param}` found')
+        for k, f in enumerate(found):
+            out.append((f'{mod}.{fname}#{k}', f))
+    return out
+
+
+def generate_normalisers(repo: Path, outdir: Path) -> dict:
+    sites = extract_normalisers(repo)
+    s = ['/- GENERATED by translator/tables.py (generate_normalisers) from the current /repo sources. Do not edit. -/',
+         'namespace Mahotas.Generated', '',
+         '/-- (wrapper#occurrence, numpy normalisation applied to the array argument before a native ISCARRAY guard) -/',
+         'def normSites : List (String × String) := [' + ', '.join(f'("{a}", "{b}")' for a, b in sites) + ']',
+         '', 'end Mahotas.Generated', '']
+    changed = _write_if_changed(outdir / 'Normalise.lean', '\n'.join(s))
+    return dict(normalise_changed=changed, norm_sites=len(sites))
+
+
+# ---------------------------------------------------------------------------------------------
+# C08 (purity): the wrappers around in-place native kernels hand over the user's array only when asked
+
+COPY_GUARD_SITES = [('convolve', '_wavelet_array', 'inline'), ('labeled', '_as_labeled', 'inplace'),
+                    ('features/surf', 'integral', 'in_place')]
+
+
+def extract_copy_guards(repo: Path):
+    """for each site: under `if not <flag>:` every assignment/return to the array is a copying numpy call"""
+    out = []
+    for mod, fname, flag in COPY_GUARD_SITES:
+        import warnings
+        with warnings.catch_warnings():
+            warnings.simplefilter('ignore')          # surf.py has an invalid escape in a docstring
+            tree = ast.parse((repo / 'mahotas' / (mod + '.py')).read_text())
+        fn = next((n for n in tree.body if isinstance(n, ast.FunctionDef) and n.name == fname), None)
+        if fn is None:
+            raise TranslationError(f'{mod}.{fname} not found')
+        guard = next((n for n in ast.walk(fn) if isinstance(n, ast.If) and _src(n.test) == f'not {flag}'), None)
+        if guard is None:
+            raise TranslationError(f'{mod}.{fname}: `if not {flag}:` not found')
+        calls = set()
+
+        def visit(stmts):
+            for st in stmts:
+                if isinstance(st, ast.If):
+                    if not st.orelse:
+                        raise TranslationError(f'{mod}.{fname}: a branch under `not {flag}` may fall through without a copy')
+                    visit(st.body)
+                    visit(st.orelse)
+                elif isinstance(st, (ast.Assign, ast.Return)) and isinstance(st.value, ast.Call):
+                    calls.add(getattr(st.value.func, 'attr', None) or getattr(st.value.func, 'id', '?'))
+                else:
+                    raise TranslationError(f'{mod}.{fname}: unexpected statement under `not {flag}`: {_src(st)[:60]}')
+        visit(guard.body)
+        if not calls:
+            raise TranslationError(f'{mod}.{fname}: nothing happens under `not {flag}`')
+        out.append((f"{mod.replace('/', '.')}.{fname}", flag, sorted(calls)))
+    return out
+
+
+def generate_copy_guards(repo: Path, outdir: Path) -> dict:
+    sites = extract_copy_guards(repo)
+    s = ['/- GENERATED by translator/tables.py (generate_copy_guards) from the current /repo sources. Do not edit. -/',
+         'namespace Mahotas.Generated', '',
+         '/-- (wrapper, flag, numpy calls that produce the array handed to the in-place kernel when the flag is false) -/',
+         'def copyGuards : List (String × String × List String) := [' +
+         ', '.join('("%s", "%s", [%s])' % (a, b, ', '.join('"%s"' % x for x in c)) for a, b, c in sites) + ']',
+         '', 'end Mahotas.Generated', '']
+    changed = _write_if_changed(outdir / 'CopyGuards.lean', '\n'.join(s))
+    return dict(copy_guards_changed=changed, copy_guards=len(sites))
+
 
 def lean_list(xs):
     return '[' + ', '.join(str(x) for x in xs) + ']'
@@ -469,9 +681,13 @@ def generate(repo: Path, outdir: Path) -> dict:
     s += c17_lines + ['']
     s += ['end Mahotas.Generated', '']
     changed = _write_if_changed(outdir / 'Tables.lean', '\n'.join(s))
-    return dict(tables_changed=changed, modes=len(py), translate_sizes=len(ts), colour_constants=len(col),
-                directions_2d=len(tex['_2d_deltas']), directions_3d=len(tex['_3d_deltas']), factorials=len(fact),
-                **c15_info, **c17_info)
+    res = dict(tables_changed=changed, modes=len(py), translate_sizes=len(ts), colour_constants=len(col),
+               directions_2d=len(tex['_2d_deltas']), directions_3d=len(tex['_3d_deltas']), factorials=len(fact),
+               **c15_info, **c17_info)
+    res.update(generate_outconv(repo, outdir))      # C09
+    res.update(generate_normalisers(repo, outdir))  # C08
+    res.update(generate_copy_guards(repo, outdir))  # C08
+    return res
 
 
 if __name__ == '__main__':
